@@ -35,7 +35,7 @@ import numpy as np
 
 from ..docstrings import document_dump_one, document_load_one
 from ..iodata import IOData
-from ..utils import LineIterator, LoadError, LoadWarning, set_four_index_element
+from ..utils import DumpError, LineIterator, LoadError, LoadWarning, set_four_index_element
 
 __all__ = ()
 
@@ -151,6 +151,11 @@ def dump_one(f: TextIO, data: IOData):
     nactive = one_mo.shape[0]
     nelec = data.nelec or 0
     spinpol = data.spinpol or 0
+    if nelec != round(nelec) or spinpol != round(spinpol):
+        raise DumpError("The FCIDUMP format requires integer NELEC and MS2.", f)
+    # nelec and spinpol are floats in IOData
+    nelec = int(round(nelec))
+    spinpol = int(round(spinpol))
     print(f" &FCI NORB={nactive:d},NELEC={nelec:d},MS2={spinpol:d},", file=f)
     print(f"  ORBSYM= {','.join('1' for v in range(nactive))},", file=f)
     print("  ISYM=1", file=f)
